@@ -199,3 +199,48 @@ def _new_seqfile(eng, st, args, kwargs, node):
 	st.assume(TFile.fields['format'][0](f.term) == to_term(vals['format']))
 	st.assume(TFile.fields['compression'][0](f.term) == TOpt(TStr).unwrap(vals['compression']))
 	yield st, f
+
+
+# ---- csv writer as a ghost list of rows -------------------------------------------------------------------------------
+_RowT = TSeq(TStr)
+FMT = z3.Function('FMT4', F32, STR)      # format(x, '0.4f') of a binary32 value
+
+
+@lib('__ghost_init__csv')
+def _ghost_init_csv(eng, st):
+	st.ghosts['csv_rows'] = SSeq(_RowT, z3.Const(fresh_name('csv0'), z3.ArraySort(I, _RowT.sort)), 0)
+
+
+@lib('csv.writer')
+def _csv_writer(eng, st, args, kwargs, node):
+	yield st, ExtObj('csvwriter', opts=dict(kwargs))
+
+
+@lib('method:writerow')
+def _writerow(eng, st, obj, args, kwargs, node, site):
+	"""csv.writer.writerow(row): appends one row (the list of its fields as strings) to the document"""
+	row = st.deref(args[0])
+	if isinstance(row, (list, tuple)):
+		r = SSeq(TStr, z3.Const(fresh_name('row'), z3.ArraySort(I, STR)), len(row))
+		for i, x in enumerate(row):
+			st.assume(z3.Select(r.arr, i) == to_term(x))
+		row = r
+	if not (isinstance(row, SSeq) and row.T is TStr):
+		raise Unsupported(f'writerow of {row!r}')
+	st.ghosts['csv_rows'] = st.ghosts['csv_rows'].snoc(row)
+	yield st, None
+
+
+@lib('builtins.format')
+def _format(eng, st, args, kwargs, node):
+	v, spec = args[0], args[1] if len(args) > 1 else ''
+	if isinstance(v, SF32) and spec == '0.4f':
+		yield st, SStr(FMT(v.term))
+		return
+	raise Unsupported(f'format({v!r}, {spec!r})')
+
+
+@lib('gambit.util.io.maybe_open')
+def _maybe_open(eng, st, args, kwargs, node):
+	"""a context manager yielding a writable/readable file object for a path, or the given file object (C18 inspects the modes)"""
+	yield st, ExtObj('file', mode=args[1] if len(args) > 1 else 'r')
